@@ -525,4 +525,85 @@ theorem direct_import_entry_frame (docId fresh : String) (ig : IGraph) (s : Stor
 example : (Op.addGraphDirect (ImportEntry.target .document "b" "u") ⟨[[("NodeID", .str "n1"), ("GraphID", .str "b")],
     [("NodeID", .str "n2"), ("GraphID", .str "b")]], []⟩).keepsGraphId = true ∧ "a" ≠ ImportEntry.target .document "b" "u" := by decide
 
+/-! ## id-less imports of documents that name a graph; graph ids that look alike -/
+
+/-- **an import that names no graph id creates a new graph, whatever the document says.**  The id-less imports of a history
+    are filed under the ids `generated` the library mints (`ImportEntry.Fresh generated inUse`: pairwise distinct, none in
+    use).  The i-th of them — any document, in particular one whose nodes all carry the id `docId` of a graph IN USE (a saved
+    model loaded again as a working copy) — leaves every graph in use as it was: `docId` plays no part in the target. -/
+theorem idless_import_creates_new_graph {generated inUse : List String} (hf : ImportEntry.Fresh generated inUse) {i : Nat}
+    (hi : i < generated.length) (docId : String) (ig : IGraph) (s : Store) (h : Store.Inv s) (g' : String) (hg : g' ∈ inUse) :
+    nodesOf (Store.step (.addGraph (ImportEntry.target .idless docId generated[i]) ig) s).2 g' = nodesOf s g' ∧
+    edgesOf (Store.step (.addGraph (ImportEntry.target .idless docId generated[i]) ig) s).2 g' = edgesOf s g' :=
+  import_entry_frame .idless docId generated[i] ig s g' h
+    (fun e => hf.2 _ (List.getElem_mem hi) (by simp only [ImportEntry.target] at e; exact e ▸ hg))
+
+/-- … and two id-less imports never meet: the j-th leaves the graph the i-th created alone (the same file loaded twice
+    gives two independent working copies) -/
+theorem idless_imports_do_not_meet {generated inUse : List String} (hf : ImportEntry.Fresh generated inUse) {i j : Nat}
+    (hi : i < generated.length) (hj : j < generated.length) (hij : i ≠ j) (di dj : String) (ig : IGraph) (s : Store)
+    (h : Store.Inv s) :
+    nodesOf (Store.step (.addGraph (ImportEntry.target .idless dj generated[j]) ig) s).2
+        (ImportEntry.target .idless di generated[i]) = nodesOf s (ImportEntry.target .idless di generated[i]) ∧
+    edgesOf (Store.step (.addGraph (ImportEntry.target .idless dj generated[j]) ig) s).2
+        (ImportEntry.target .idless di generated[i]) = edgesOf s (ImportEntry.target .idless di generated[i]) :=
+  import_entry_frame .idless dj generated[j] ig s _ h (ImportEntry.idless_targets_distinct hf hi hj hij di dj)
+
+/-- the same on the disjoint store: the graph stored under an id in use — nodes, edges, id counter — is untouched -/
+theorem didless_import_creates_new_graph {generated inUse : List String} (hf : ImportEntry.Fresh generated inUse) {i : Nat}
+    (hi : i < generated.length) (docId : String) (ig : IGraph) (d : DStore.DStore) (g' : String) (hg : g' ∈ inUse) :
+    DStore.sub (DStore.step (.addGraph (ImportEntry.target .idless docId generated[i]) ig) d).2 g' = DStore.sub d g' :=
+  dframe _ d g' (fun e => hf.2 _ (List.getElem_mem hi) (by simp only [ImportEntry.target, Op.target] at e; exact e ▸ hg)) rfl
+
+-- non-vacuity: two minted ids, the saved model's id "model" in use
+example : ImportEntry.Fresh ["u1", "u2"] ["model", "other"] ∧ "model" ∈ ["model", "other"] := by decide
+
+theorem ne_append_suffix (g sfx : String) (hs : sfx ≠ "") : g ≠ g ++ sfx := by
+  intro e
+  have h1 : (g ++ sfx).length = g.length + sfx.length := String.length_append g sfx
+  rw [← e] at h1
+  have : sfx.length = 0 := by omega
+  exact hs (String.length_eq_zero_iff.mp this)
+
+theorem ne_prefix_append (g pfx : String) (hs : pfx ≠ "") : g ≠ pfx ++ g := by
+  intro e
+  have h1 : (pfx ++ g).length = pfx.length + g.length := String.length_append pfx g
+  rw [← e] at h1
+  have : pfx.length = 0 := by omega
+  exact hs (String.length_eq_zero_iff.mp this)
+
+/-- **graph ids that look alike are different graphs.**  A graph id and the id with something appended or prepended
+    (`exp` / `exp-v2`, `g1` / `g10`, `v2` / `exp-v2`) name unrelated graphs: whatever is addressed to one of them and writes no
+    other GraphID — an import, the REPLACING re-import (delete, then add), a direct re-import of a document naming it, clone onto
+    it, delete_graph, every node / link operation — leaves the other untouched, in both directions, on both stores. -/
+theorem lookalike_ids_are_other_graphs (op : Op) (s : Store) (h : Store.Inv s) (hk : op.keepsGraphId = true) (x : String)
+    (hx : x ≠ "") :
+    (∀ g, op.target = g ++ x ∨ op.target = x ++ g → nodesOf (Store.step op s).2 g = nodesOf s g ∧ edgesOf (Store.step op s).2 g = edgesOf s g) ∧
+    (∀ g, op.target = g → nodesOf (Store.step op s).2 (g ++ x) = nodesOf s (g ++ x) ∧ edgesOf (Store.step op s).2 (g ++ x) = edgesOf s (g ++ x) ∧
+      nodesOf (Store.step op s).2 (x ++ g) = nodesOf s (x ++ g) ∧ edgesOf (Store.step op s).2 (x ++ g) = edgesOf s (x ++ g)) := by
+  refine ⟨fun g ht => ?_, fun g ht => ?_⟩
+  · refine frame_general op s g h (affects_of_keepsGraphId op g hk ?_)
+    rcases ht with ht | ht <;> rw [ht]
+    · exact ne_append_suffix g x hx
+    · exact ne_prefix_append g x hx
+  · have a := frame_general op s (g ++ x) h (affects_of_keepsGraphId op _ hk (by rw [ht]; exact (ne_append_suffix g x hx).symm))
+    have b := frame_general op s (x ++ g) h (affects_of_keepsGraphId op _ hk (by rw [ht]; exact (ne_prefix_append g x hx).symm))
+    exact ⟨a.1, a.2, b.1, b.2⟩
+
+/-- … on the disjoint store, for every operation but delete_all_graphs -/
+theorem dlookalike_ids_are_other_graphs (op : Op) (d : DStore.DStore) (hall : op.isDelAll = false) (g x : String) (hx : x ≠ "") :
+    (op.target = g ++ x ∨ op.target = x ++ g → DStore.sub (DStore.step op d).2 g = DStore.sub d g) ∧
+    (op.target = g → DStore.sub (DStore.step op d).2 (g ++ x) = DStore.sub d (g ++ x) ∧
+      DStore.sub (DStore.step op d).2 (x ++ g) = DStore.sub d (x ++ g)) := by
+  refine ⟨fun ht => dframe op d g ?_ hall, fun ht => ⟨dframe op d _ ?_ hall, dframe op d _ ?_ hall⟩⟩
+  · rcases ht with ht | ht <;> rw [ht]
+    · exact ne_append_suffix g x hx
+    · exact ne_prefix_append g x hx
+  · rw [ht]; exact (ne_append_suffix g x hx).symm
+  · rw [ht]; exact (ne_prefix_append g x hx).symm
+
+-- non-vacuity: the replacing re-import of "exp-v2" while "exp" is in the store
+example : (Op.addGraph ("exp" ++ "-v2") ⟨[[("NodeID", .str "a")]], []⟩).keepsGraphId = true ∧ "-v2" ≠ "" ∧
+    (Op.addGraph ("exp" ++ "-v2") ⟨[[("NodeID", .str "a")]], []⟩).target = "exp" ++ "-v2" := by decide
+
 end FimVerif.C04
